@@ -92,7 +92,7 @@ def nontrivial(s):
 
 DIRECTED = [["%2F"], ["%25", "41"], ["%2541"], ["%7F"], ["%C2%80"], ["%E9"], ["a", " ", "b"], ["%", "%34", "1"], ["%%34", "1"], ["%c3%a9", "%2f"], ["%3a", "%zz", "%Aa"],
             ["é", "%C3"], ["%C3", "é"], ["%F0%9F", "%98%80"], ["%20", " "], ["%2e", "%2E"], ["%ED%A0%80"], ["%C0%AF"], ["%4", "1"], ["%", "41"], ["%2", "5", "41"],
-            ["\x7f"], ["\x85", "%C2%85"], ["%09"], ["+", "%2B"], ["%3F", "?"], ["%23", "#"], ["%40", "@", "%3A", ":"], ["%26", "&", "%3D", "="]]
+            ["\x7f"], ["\x85", "%C2%85"], ["%09"], ["a", "b", "c", "\n"], ["\n"], ["abc\n", "d"], ["\t", "a"], ["a", "\x00"], ["é", "\n"], ["%41", "\n"], ["a", "\r\n"], ["+", "%2B"], ["%3F", "?"], ["%23", "#"], ["%40", "@", "%3A", ":"], ["%26", "&", "%3D", "="]]
 
 
 def run(ctx):
@@ -145,7 +145,8 @@ def run(ctx):
                     do(["%%%02X" % a, "%%%02X" % b], "escape-pair")
                     n_here += 1
             ctx.exhaustive_space("all pairs %XX%YY", n_here)
-        alltok = [t for t, _ in TOKENS]
+        # the standalone functions take "every string": raw control characters too (in URLs the cleaning pass removes them first)
+        alltok = [t for t, _ in TOKENS] + ["\n", "\t", "\x00", "\x7f", "\x85", "\r", "\x1f"]
         n = 0
         lim = 4000 if ctx.tier == "quick" else 10 ** 7
         while ctx.time_left() and n < lim:
